@@ -20,6 +20,9 @@ func init() {
 }
 
 func checkC20(p *Prog, l *Ledger) {
+	// every line gets its response: a line that fails at run time must still end (rules of C06: eval is a no-op once the
+	// flag is set, no loop cycles in that state), or the session never answers another line
+	l.AsOnly(map[string]string{"C06/S2-guarded-eval": "C20/S1-line-ends-after-error/guarded-eval", "C06/S3-bounded-after-error": "C20/S1-line-ends-after-error/loops", "C06/S2-effect-after-error": "C20/S1-line-ends-after-error/effects"}, func() { checkC06(p, l) })
 	// ---- S1 + S3: the prompt loop
 	fn := p.Func("main.runPrompt")
 	if fn == nil {
